@@ -9,39 +9,56 @@ From PlzV Require Import Base.Harness Base.StrFacts Model.C08 Model.C08_Set Mode
 
 Definition bools : list bool := [true; false].
 
-(* The wrapper bypasses the memo EXACTLY when `runtime || (postBuild && BuildCouldModifyTarget())`, hashes with the
-   caller's runtime flag when it bypasses, and memoises the non-runtime hash. *)
+(* What the theorems need of the wrapper: it bypasses the memo AT LEAST when `runtime || (postBuild &&
+   BuildCouldModifyTarget())`, a bypassing call hashes with the caller's runtime flag, and the hash that is memoised is
+   the non-runtime one. *)
 Definition wrapper_okb (w : wrapper) : bool :=
   forallb (fun rt => forallb (fun pb => forallb (fun cm =>
-    Bool.eqb (beval (wvar_val rt pb cm) (w_bypass w)) (rt || (pb && cm))
+    implb (rt || (pb && cm)) (beval (wvar_val rt pb cm) (w_bypass w))
     && (if beval (wvar_val rt pb cm) (w_bypass w)
         then Bool.eqb (rt_of (w_bypass_rt w) rt) rt
         else negb (rt_of (w_fill_rt w) rt))) bools) bools) bools.
+
+(* ... and it bypasses ONLY then (not needed for the property; characterises the memoised calls) *)
+Definition wrapper_exactb (w : wrapper) : bool :=
+  forallb (fun rt => forallb (fun pb => forallb (fun cm =>
+    Bool.eqb (beval (wvar_val rt pb cm) (w_bypass w)) (rt || (pb && cm))) bools) bools) bools.
 
 Lemma in_bools b : In b bools.
 Proof. destruct b; cbn; tauto. Qed.
 
 Lemma wrapper_ok_inst w : wrapper_okb w = true -> forall rt pb cm,
-  beval (wvar_val rt pb cm) (w_bypass w) = rt || (pb && cm)
-  /\ (rt || (pb && cm) = true -> rt_of (w_bypass_rt w) rt = rt)
-  /\ (rt || (pb && cm) = false -> rt_of (w_fill_rt w) rt = false).
+  (rt || (pb && cm) = true -> beval (wvar_val rt pb cm) (w_bypass w) = true)
+  /\ (beval (wvar_val rt pb cm) (w_bypass w) = true -> rt_of (w_bypass_rt w) rt = rt)
+  /\ (beval (wvar_val rt pb cm) (w_bypass w) = false -> rt_of (w_fill_rt w) rt = false).
 Proof.
   intros Hok rt pb cm. unfold wrapper_okb in Hok. rewrite forallb_forall in Hok.
   specialize (Hok rt (in_bools rt)). rewrite forallb_forall in Hok.
   specialize (Hok pb (in_bools pb)). rewrite forallb_forall in Hok.
   specialize (Hok cm (in_bools cm)). apply andb_true_iff in Hok. destruct Hok as [Hb Hr].
-  apply Bool.eqb_prop in Hb. rewrite Hb in Hr. split; [exact Hb|]. split; intros Hc; rewrite Hc in Hr.
-  - now apply Bool.eqb_prop in Hr.
-  - now apply negb_true_iff in Hr.
+  split; [|split]; intros Hc.
+  - rewrite Hc in Hb. exact Hb.
+  - rewrite Hc in Hr. now apply Bool.eqb_prop in Hr.
+  - rewrite Hc in Hr. now apply negb_true_iff in Hr.
 Qed.
 
-(* computations on the regenerated wrapper: they break when RuleHash's condition, the runtime argument of either ruleHash
-   call or BuildCouldModifyTarget changes *)
+Lemma wrapper_exact_inst w : wrapper_exactb w = true -> forall rt pb cm,
+  beval (wvar_val rt pb cm) (w_bypass w) = rt || (pb && cm).
+Proof.
+  intros Hok rt pb cm. unfold wrapper_exactb in Hok. rewrite forallb_forall in Hok.
+  specialize (Hok rt (in_bools rt)). rewrite forallb_forall in Hok.
+  specialize (Hok pb (in_bools pb)). rewrite forallb_forall in Hok.
+  specialize (Hok cm (in_bools cm)). now apply Bool.eqb_prop in Hok.
+Qed.
+
+(* computations on the regenerated wrapper: they break when RuleHash's condition stops covering post-build calls on
+   modifiable targets or runtime calls, when the runtime argument of either ruleHash call changes, or when
+   BuildCouldModifyTarget changes *)
 Lemma gen_wrapper_ok : wrapper_okb rule_hash_wrapper = true.
 Proof. vm_compute. reflexivity. Qed.
 
-Lemma gen_could_modify t :
-  could_modify rule_hash_wrapper t = t_post_build t || negb (is_nil (t_output_dirs t)).
+(* BuildCouldModifyTarget says exactly what the build step does *)
+Lemma gen_could_modify t : could_modify rule_hash_wrapper t = build_can_modify t.
 Proof. reflexivity. Qed.
 
 (* ------------------------------------------------------------------------------------------ one call *)
@@ -52,23 +69,28 @@ Section Cache.
   Variable p : program.
   Variable w : wrapper.
   Hypothesis w_ok : wrapper_okb w = true.
+  Hypothesis cm_ok : forall t, could_modify w t = build_can_modify t.
 
-  Let cm := could_modify w.
+  Let cm := build_can_modify.
+  Let bypass (rt pb : bool) (t : target) : bool := beval (wvar_val rt pb (cm t)) (w_bypass w).
 
   (* what one call returns and memoises *)
   Lemma call_spec rt pb t memo :
     call D H p w rt pb (t, memo) =
-      if rt || (pb && cm t) then (H (ser p rt t), memo)
+      if bypass rt pb t then (H (ser p rt t), memo)
       else match memo with
            | Some h => (h, memo)
            | None => (H (ser p false t), Some (H (ser p false t)))
            end.
   Proof.
-    unfold call. destruct (wrapper_ok_inst w w_ok rt pb (could_modify w t)) as (Hb & Hbr & Hfr).
-    unfold cm. rewrite Hb. destruct (rt || (pb && could_modify w t)) eqn:Hc.
+    unfold call, bypass, cm. rewrite cm_ok. destruct (wrapper_ok_inst w w_ok rt pb (build_can_modify t)) as (_ & Hbr & Hfr).
+    destruct (beval (wvar_val rt pb (build_can_modify t)) (w_bypass w)) eqn:Hc.
     - now rewrite (Hbr eq_refl).
     - destruct memo; [reflexivity|]. now rewrite (Hfr eq_refl).
   Qed.
+
+  Lemma bypass_covers rt pb t : rt || (pb && cm t) = true -> bypass rt pb t = true.
+  Proof. unfold bypass, cm. now destruct (wrapper_ok_inst w w_ok rt pb (build_can_modify t)) as (Hb & _ & _). Qed.
 
   (* a call is FRESH-DEMANDING when it is a runtime call, a post-build call, or the build cannot modify the target:
      everything except the pre-build mode call on a target that the build could modify *)
@@ -82,7 +104,7 @@ Section Cache.
   Lemma inv_call rt pb st : inv st -> inv (fst st, snd (call D H p w rt pb st)).
   Proof.
     destruct st as [t memo]. unfold inv. intros Hi. rewrite call_spec. cbn [fst snd] in *.
-    destruct (rt || (pb && cm t)); [exact Hi|]. destruct memo as [h|]; [exact Hi|].
+    destruct (bypass rt pb t); [exact Hi|]. destruct memo as [h|]; [exact Hi|].
     right. right. reflexivity.
   Qed.
 
@@ -90,9 +112,10 @@ Section Cache.
     inv st -> demands_fresh rt pb (fst st) = true -> fst (call D H p w rt pb st) = H (ser p rt (fst st)).
   Proof.
     destruct st as [t memo]. unfold inv. intros Hi Hd. rewrite call_spec. cbn [fst snd] in *. unfold demands_fresh in Hd.
-    destruct rt; [reflexivity|]. cbn [orb] in *. destruct (cm t) eqn:Hcm.
-    - rewrite andb_true_r in *. cbn [negb] in Hd. rewrite orb_false_r in Hd. rewrite Hd. reflexivity.
-    - rewrite andb_false_r. destruct Hi as [Hm | [Hi | Hm]]; [subst memo; reflexivity | congruence | subst memo; reflexivity].
+    pose proof (bypass_covers rt pb t) as Hcov. destruct (bypass rt pb t); [reflexivity|].
+    destruct rt; [cbn in Hcov; now specialize (Hcov eq_refl)|]. cbn [orb] in *. destruct (cm t) eqn:Hcm.
+    - rewrite andb_true_r in Hcov. cbn [negb] in Hd. rewrite orb_false_r in Hd. now specialize (Hcov Hd).
+    - destruct Hi as [Hm | [Hi | Hm]]; [subst memo; reflexivity | congruence | subst memo; reflexivity].
   Qed.
 
   (* every call of a valid history that demands a fresh hash gets the hash of the attributes as they are at that call *)
@@ -113,28 +136,27 @@ Section Cache.
   Lemma inv_initial t0 : inv (t0, None).
   Proof. now left. Qed.
 
-  (* the other half, for the record: a pre-build mode call on a target the build could modify returns the memo (the hash of
-     the attributes at the first such call), whatever the attributes are now *)
-  Lemma prebuild_call_memoised t h : cm t = true -> call D H p w false false (t, Some h) = (h, Some h).
-  Proof. intros Hcm. rewrite call_spec. cbn [orb andb]. reflexivity. Qed.
+  (* the other half, for the record (for a wrapper that bypasses ONLY when it has to, as the one in the source does today): a
+     pre-build mode call on a target the build could modify returns the memo - the hash of the attributes at the first such
+     call - whatever the attributes are now *)
+  Lemma prebuild_call_memoised t h :
+    wrapper_exactb w = true -> cm t = true -> call D H p w false false (t, Some h) = (h, Some h).
+  Proof.
+    intros Hex Hcm. rewrite call_spec. unfold bypass. rewrite (wrapper_exact_inst w Hex). cbn [orb andb]. reflexivity.
+  Qed.
 End Cache.
 
 (* ------------------------------------------------------------------------------------------ the property, for the regenerated wrapper *)
 
-Definition fresh_call (c_rt c_pb : bool) (t : target) : bool :=
-  c_rt || c_pb || negb (t_post_build t || negb (is_nil (t_output_dirs t))).
-
-Lemma demands_fresh_gen rt pb t : demands_fresh rule_hash_wrapper rt pb t = fresh_call rt pb t.
-Proof. reflexivity. Qed.
+Definition fresh_call (rt pb : bool) (t : target) : bool := rt || pb || negb (build_can_modify t).
 
 Theorem postbuild_hash_current (D : Type) (H : str -> D) t0 evs :
   valid D H prog rule_hash_wrapper (t0, None) evs ->
   Forall (fun c => fresh_call (c_rt c) (c_pb c) (c_target c) = true -> c_result c = H (ser prog (c_rt c) (c_target c)))
          (calls D H prog rule_hash_wrapper (t0, None) evs).
 Proof.
-  intros Hv. pose proof (valid_history_fresh D H prog rule_hash_wrapper gen_wrapper_ok evs (t0, None)
-                           (inv_initial D H prog rule_hash_wrapper t0) Hv) as Hall.
-  eapply Forall_impl; [|exact Hall]. intros c Hc Hf. apply Hc. now rewrite demands_fresh_gen.
+  intros Hv. exact (valid_history_fresh D H prog rule_hash_wrapper gen_wrapper_ok gen_could_modify evs (t0, None)
+                      (inv_initial D H prog t0) Hv).
 Qed.
 
 (* ... and therefore the one-field characterisation of Proof/C08.v holds for the values RuleHash RETURNS after the build has
@@ -171,11 +193,8 @@ Definition pb_base : target := set_post_build true (set_outs [s "out.txt"] base)
 Definition pb_built : target := set_outs [s "extra1.txt"; s "out.txt"] pb_base.
 Definition pb_history : list event := [EvCall false false; EvSet pb_built; EvCall false true].
 
-Lemma pb_history_valid (D : Type) (H : str -> D) w :
-  w_could_modify w = w_could_modify rule_hash_wrapper -> valid D H prog w (pb_base, None) pb_history.
-Proof.
-  intros Hw. cbn [pb_history valid fst snd]. split; [|exact I]. right. unfold could_modify. rewrite Hw. split; reflexivity.
-Qed.
+Lemma pb_history_valid (D : Type) (H : str -> D) w : valid D H prog w (pb_base, None) pb_history.
+Proof. cbn [pb_history valid fst snd]. split; [|exact I]. right. split; reflexivity. Qed.
 
 Lemma runtime_only_wrapper_stale :
   wrapper_okb wrapper_runtime_only = false
@@ -184,7 +203,7 @@ Lemma runtime_only_wrapper_stale :
      = [ser prog false pb_base; ser prog false pb_base]
   /\ ser prog false pb_base <> ser prog false pb_built.
 Proof.
-  split; [vm_compute; reflexivity|]. split; [now apply pb_history_valid|].
+  split; [vm_compute; reflexivity|]. split; [apply pb_history_valid|].
   split; [vm_compute; reflexivity | vm_compute; discriminate].
 Qed.
 
@@ -195,7 +214,7 @@ Lemma generated_wrapper_current :
   /\ fresh_call false true pb_built = true
   /\ ser prog false pb_base <> ser prog false pb_built.
 Proof.
-  split; [now apply pb_history_valid|]. split; [vm_compute; reflexivity|]. split; [reflexivity | vm_compute; discriminate].
+  split; [apply pb_history_valid|]. split; [vm_compute; reflexivity|]. split; [reflexivity | vm_compute; discriminate].
 Qed.
 
 (* ------------------------------------------------------------------------------------------ the property theorem *)
